@@ -3,4 +3,5 @@ pub mod known;
 pub mod sx;
 pub mod ri;
 pub mod pg;
+pub mod skeleton;
 pub mod synrules;
